@@ -49,10 +49,13 @@ func TestMC(t *testing.T) {
 		scenario("fault-order",
 			config{budget: 4, maxProgress: 1, faults: []reply{rBadExec, rUnknown}},
 			config{budget: 6, maxProgress: 1, maxJumps: 1, faults: []reply{rBadExec, rUnknown}}, 2, 3),
-		// Readiness failures (also after non-OK completions).
+		// Readiness failures (also after non-OK completions), combined with
+		// RPC errors: readiness must only be (re)checked - and its failure may
+		// only permit termination - while the scheduler cannot believe the
+		// worker is executing.
 		scenario("readiness",
-			config{budget: 4, maxProgress: 0, maxReadyFail: 2, noNone: true},
-			config{budget: 6, maxProgress: 2, maxReadyFail: 3}, 2, -1),
+			config{budget: 4, maxProgress: 0, maxReadyFail: 2, noNone: true, faults: []reply{rErr}},
+			config{budget: 6, maxProgress: 2, maxReadyFail: 3, maxJumps: 1, faults: []reply{rErr}}, 2, -1),
 		// The one-minute rule: scheduler unreachable during shutdown.
 		scenario("outage",
 			config{budget: 3, maxProgress: 0, maxJumps: 2, faults: []reply{rErr}},
